@@ -67,7 +67,7 @@ class Solver(object):
             ob.status, ob.backend = REFUTED, "z3-%s" % z3.get_version_string()
             try:
                 m = s.model()
-                ob.model = {str(d): str(m[d]) for d in m.decls() if not str(d).startswith("uf:")}
+                ob.model = {str(d): _val_text(m[d]) for d in m.decls() if not str(d).startswith("uf:")}
             except z3.Z3Exception:
                 ob.model = {}
         else:
@@ -110,6 +110,17 @@ class Solver(object):
             os.unlink(fn)
 
 
+def _val_text(v):
+    """Model value as text; strings in SMT-LIB form (an embedded quote doubled), which is what replay_block.z3_string decodes --
+    z3's Python printer leaves embedded quotes bare, so '""' inside a value would be ambiguous"""
+    try:
+        if z3.is_string_value(v):
+            return v.sexpr()
+    except z3.Z3Exception:
+        pass
+    return str(v)
+
+
 def parse_model(out):
     """(define-fun |name| () Sort value) lines of a (get-model) answer -> {name: value text} (nullary constants only)"""
     import re
@@ -134,7 +145,7 @@ def _z3_text(text, timeout_ms):
     if r == z3.sat:
         try:
             m = s.model()
-            return r, {str(d): str(m[d]) for d in m.decls() if not str(d).startswith("uf:")}
+            return r, {str(d): _val_text(m[d]) for d in m.decls() if not str(d).startswith("uf:")}
         except z3.Z3Exception:
             return r, {}
     return r, None
